@@ -194,14 +194,17 @@ class _SubclassedWrapperBase(ClassWrapper):
     assert init_arg_list is not None, init_arg_list
     kwargs = dict(self.sym_init_args)
     list_args = []
+    varargs = []
 
+    # Pass the positional parameters by position, which also serves
+    # positional-only parameters.
     if init_arg_list and init_arg_list[-1].startswith('*'):
-      vararg_name = init_arg_list[-1][1:]
-      varargs = kwargs.pop(vararg_name)
-      for arg_name in init_arg_list[:-1]:
-        assert arg_name in kwargs
-        list_args.append(kwargs.pop(arg_name))
-      list_args.extend(varargs)
+      varargs = kwargs.pop(init_arg_list[-1][1:])
+      init_arg_list = init_arg_list[:-1]
+    for arg_name in init_arg_list:
+      assert arg_name in kwargs
+      list_args.append(kwargs.pop(arg_name))
+    list_args.extend(varargs)
     self._init_user_cls(*list_args, **kwargs)
 
   def __post_init__(self):
